@@ -13,10 +13,10 @@ set_option linter.unusedSimpArgs false
 /-- the `BfRangeTarget` `from_sections` / `put_char` choose for a definition -/
 def storedOf : Def → Target
   | .char code _ [u] => .cp (wrappingSub u code)
-  | .char _ _ dst => .hex dst
+  | .char code _ dst => .hex code dst
   | .range lo _ _ [[u]] => .cp (wrappingSub u lo)
-  | .range _ _ _ [t] => .hex t
-  | .range _ _ _ dsts => .arr dsts
+  | .range lo _ _ [t] => .hex lo t
+  | .range lo _ _ dsts => .arr lo dsts
 
 def defsOfChars (ms : List ((Nat × Nat) × List Nat)) : List Def :=
   ms.map fun ((c, l), d) => .char c l d
